@@ -362,6 +362,63 @@ def Row.ignoredKnown (knownPos : List Position) (knownPairs : List (Position × 
   r.disps.all (fun pd => decide (pd.2 ≠ .ignored) || knownPos.contains pd.1 ||
     knownPairs.contains (pd.1, r.code))
 
+/-! ## consumer sites of the shared dispatchers (pipeline language)
+
+The dispatchers of the pipeline language are shared helpers (`_accumulate_group`,
+`_parse_expression`, `process_pipeline`, `filtering.filter_applies`) that several stage handlers
+call, each on another part of the stage's specification (`output` of `$bucket`, its `groupBy`,
+the sub-pipelines of `$facet`, `restrictSearchWithMatch` / `startWith` of `$graphLookup`, the
+operand of every accumulator, …).  `harness/extract_sites.py` derives the list of those parts
+from the source (calls of the helpers in the syntax tree of `mongomock/aggregate.py`, and a traced
+run of every stage on a fully-optioned specification) and probes the names there. -/
+
+/-- a call of a dispatch helper in the source of `mongomock/aggregate.py` -/
+structure CallSite where
+  fn : String        -- the module-level function the call stands in
+  helper : String    -- the helper it calls
+  line : Nat
+  deriving DecidableEq, Repr
+
+/-- a part of a stage's specification that reaches a dispatcher: `<stage>/<key path>:<family>` -/
+structure Site where
+  id : String
+  call : Nat         -- index into the generated list of call sites
+  deriving DecidableEq, Repr
+
+/-- one name with what was OBSERVED for it at each probed site: (site index, the position whose
+    dispatcher the site's helper is, observed disposition) -/
+structure SiteRow where
+  code : Code
+  cls : NameClass
+  disps : List (Nat × Position × Disposition)
+
+structure SiteEntry where
+  site : Nat
+  pos : Position
+  code : Code
+  disp : Disposition
+
+def SiteRow.entries (r : SiteRow) : List SiteEntry :=
+  r.disps.map (fun d => ⟨d.1, d.2.1, r.code, d.2.2⟩)
+
+def siteEntriesOf (rows : List SiteRow) : List SiteEntry := rows.flatMap SiteRow.entries
+
+/-- the per-row check behind `sites_follow_dispatch`: the class is the classification against the
+    tables, and at every site the name meets what the dispatcher does with it — or the site is
+    louder (it raises where the dispatcher would evaluate: `newRoot` must give a document, …) -/
+def SiteRow.ok (T : Tables Code) (r : SiteRow) : Bool :=
+  decide (classify T r.code = r.cls) &&
+    r.disps.all (fun d =>
+      decide (dispatchC T.decimalSupport d.2.1 r.cls = d.2.2) || d.2.2.raises)
+
+/-- the per-row check behind `no_site_name_ignored`: an observed `ignored` is a listed one -/
+def SiteRow.ignoredKnown (known : List (Nat × Code)) (r : SiteRow) : Bool :=
+  r.disps.all (fun d => decide (d.2.2 ≠ .ignored) || known.contains (d.1, r.code))
+
+/-- every call of a dispatch helper in the source is reached by a probed site -/
+def callSitesCovered (calls : List CallSite) (sites : List Site) : Bool :=
+  (List.range calls.length).all (fun i => sites.any (fun s => s.call == i))
+
 /-! ## options -/
 
 inductive Opt | session | collation | arrayFilters | let_ | hint
